@@ -57,7 +57,7 @@ PROPS = {
                  "compared byte for byte with the Lean model of journal.Print, the printed journal is fed back to `knut print` (must be accepted and reproduce itself byte for byte) and "
                  "`knut balance` under a random flag vector must give byte-identical output on original and printed journal.",
         "note": "Trusted: Lean kernel; axioms propext, Classical.choice, Quot.sound; sort.Slice modelled as a stable sort (transactions comparing equal print identically unless their "
-                "@performance targets differ); accrual-annotated transactions not generated here yet.",
+                "@performance targets differ); @accrue-annotated transactions are generated and expanded by Model/Accrual.",
         "rule": "lifecycle journals with negative/zero/trailing-zero/many-decimal amounts, @performance() with 0..n targets, multi-balance assertions followed by further assertions, several "
                 "assertions per day, Unicode names, multi-line descriptions, a twelfth with a lifecycle mutation (rejected journals must be rejected by the model too). "
                 "class = (outcome, feature signature, size bucket).",
@@ -88,7 +88,7 @@ PROPS = {
                  "cancelling posting pairs' is proved through valuation (Truncate is odd), adjustments, filtering and closing. Tie: `knut balance` (subprocess, text and CSV, valued and unvalued) "
                  "compared BYTE FOR BYTE with the model's rendering on generated journals x flag vectors; the Delta rows of the real output are parsed and checked to be zero on every case.",
         "note": "Trusted: Lean kernel; axioms propext, Classical.choice, Quot.sound; regexps restricted to the literal/anchored/alternation family the driver implements; cobra flag parsing; "
-                "sequential pipeline semantics (C19 covers the concurrent realisation); accrual-annotated transactions are not generated here yet (C10 proves each expansion is paired).",
+                "sequential pipeline semantics (C19 covers the concurrent realisation); @accrue-annotated transactions are generated and expanded by Model/Accrual (C10 proves each expansion is paired).",
         "rule": "journals from the lifecycle generator (2-8 accounts incl. nested ones booked directly, 1-8 days over spans of 0-800 days, several commodities, zero/negative/many-decimal amounts, "
                 "half of them with daily/sparse price declarations incl. inverse ones and a valuation commodity) x flag vectors (from/to/last, six intervals, diff, close, sort, -s, -m level>=1 with "
                 "suffix, remap, csv/text, -k, digits). class = (outcome, flag signature, size bucket).",
@@ -105,7 +105,7 @@ PROPS = {
                  "automaton plus targeted mutations run through the real loader + check.Check() in-process and through `knut check|print|balance`; verdict and named "
                  "directive compared with the model; the Lean specification is evaluated on the real verdict of every case.",
         "note": "Trusted: Lean kernel; axioms propext, Classical.choice, Quot.sound; the parser/loader glue between file text and model directives (covered by C07/C05 checks); "
-                "error message texts are not modelled, only verdict and named directive. Accrual-expanded transactions are not generated by this check yet (they are bookings like any other once expanded, C10).",
+                "error message texts are not modelled, only verdict and named directive.  @accrue-annotated transactions are generated too and expanded on the model side by Model/Accrual (C10).",
         "rule": "journals generated by an account-lifecycle automaton (2-6 accounts of all five types incl. nested ones, 1-3+ commodities incl. Unicode names, 1-5 days, same-day "
                 "open/use/assert/close, multi-booking transactions, zero and negative amounts, multi-balance assertions) with at most one mutation out of: drop-open, duplicate-open, "
                 "wrong-assertion, random-close, late-booking, zero-assertion, non-AL-assertion, reopen-assert, zero-booking-unopened. class = (verdict, mutation, size bucket).",
